@@ -69,6 +69,10 @@ CHECKS = {
             "exploration: race sub-space exhaustive over its product x seeds; histories sampled with gaps on the 32 s edge and same-instant pairs; decides registered-while-referenced, exactly-once delivery while alive, revival by traffic, close 32 s after last use, immediate unregistration on peer close / framing error, no reuse of dead or inbound connections",
             "trusts tokio's paused clock and seeded select order, the duplex-pipe mocks (EOF = close), hook H3 (managed transport count)",
             "DESIGN.md 3/C15", "E-world"),
+    'C16': ("exhaustive enumeration of flood kind x size x companion scenario + proptest over workloads of 3..12 overlapping scenarios with early drops (task abort) on one endpoint under a paused clock; oracle = table sizes read through the hooks: all zero at quiescence, and at every sample below a per-live-scenario cap",
+            "exploration: floods sub-space exhaustive; workloads sampled (client / server transactions, UAS and UAC calls, floods of 100..2000 unmatched messages, connections, STUN; never-answering peers; every handle dropped at a random instant); decides that no transaction / dialog / usage / backlog / pending-cancel / STUN / connection entry survives once activity stops and that tables do not grow with the number of unmatched messages",
+            "trusts hooks H3 for the table sizes, tokio's paused clock, the scenario drivers of the harness; the bound is a generous cap, not exact accounting",
+            "DESIGN.md 3/C16", "E-world"),
     'C17': ("exhaustive enumeration of the value grid (role x refresher parameter x Session-Expires / Min-SE / Expires / Min-Expires edge values x short refresh histories) + proptest over random u32 values and histories, real Initiator/Acceptor/Session/Registration under a paused clock with a scripted peer; oracle = timeline monitor (refresh strictly before last-refresh + SE; non-refresher BYE in [SE, SE+64 s]; REGISTER refresh before grant + L)",
             "exploration: grids enumerated completely, random histories sampled; decides no panic for any u32 value, refresh-before-expiry on both roles, interval restart on every refresh sent/received, BYE only after the full interval, registration refresh timing, Call-ID reuse and CSeq +1",
             "trusts tokio's paused clock (intervals above 67 000 000 s are only checked for establishment + a 120 s window because tokio's timer wheel cannot represent them), hook H2, WireMsg",
